@@ -580,6 +580,19 @@ func c08tlPanicSite(stack string) string {
 	return "unknown"
 }
 
+// c08tlConfirm: the child re-runs a case on which an earlier child hung or ran out of memory. A hang or an
+// out-of-memory death is only reported when it repeats in a fresh process with a 60 s limit and a 6 GiB address
+// space: on a loaded machine a starved decode (or a garbage collector that fell behind under the 2 GiB limit) would
+// otherwise be reported as a defect of the code.
+func c08tlConfirm() bool { return os.Getenv("VERIF_C08TL_CONFIRM") == "1" }
+
+func c08tlHangAfter() time.Duration {
+	if c08tlConfirm() {
+		return 60 * time.Second
+	}
+	return 5 * time.Second
+}
+
 func c08tlExec(c c08tlCase, data []byte) c08tlOutcome {
 	done := make(chan c08tlOutcome, 1)
 	before := c08tlAllocNow()
@@ -621,7 +634,7 @@ func c08tlExec(c c08tlCase, data []byte) c08tlOutcome {
 			_, o.err = ParsePacket(bytes.NewReader(data), c08tlIdentity{})
 		}
 	}()
-	timer := time.NewTimer(5 * time.Second)
+	timer := time.NewTimer(c08tlHangAfter())
 	defer timer.Stop()
 	select {
 	case o := <-done:
@@ -742,6 +755,9 @@ func c08tlChild() {
 	// An allocation that cannot be satisfied is a fatal runtime error either way; a 2 GiB address-space limit makes it
 	// fail at once instead of after the kernel has mapped tens of gigabytes.
 	lim := syscall.Rlimit{Cur: 2 << 30, Max: 2 << 30}
+	if c08tlConfirm() {
+		lim = syscall.Rlimit{Cur: 6 << 30, Max: 6 << 30}
+	}
 	_ = syscall.Setrlimit(syscall.RLIMIT_AS, &lim)
 	runtime.MemProfileRate = 1 << 20
 	total := 0
@@ -763,8 +779,10 @@ func c08tlChild() {
 		desc := fmt.Sprintf("%s %s (%s), input %s", c.kind, c.group, c.describe(), c08tlHex(data))
 		switch {
 		case o.hung:
-			site := c08tlHangSite()
-			fail("rc_hang_"+c08tlSanitize(site), desc+": no result within 5 s (stuck in "+site+")")
+			if c08tlConfirm() {
+				site := c08tlHangSite()
+				fail("rc_hang_"+c08tlSanitize(site), desc+": no result within 5 s, and none within 60 s in a fresh process (stuck in "+site+")")
+			}
 			fmt.Fprintf(out, "H %d\n", idx)
 			_ = out.Close()
 			os.Exit(0)
@@ -911,6 +929,7 @@ func TestVerifStandin_C08_TL(t *testing.T) {
 	skippedCases := 0
 	kills := map[string]int{}
 	deadline := time.Now().Add(8 * time.Minute)
+	confirming := false // the next child re-runs, with relaxed limits, the case on which the previous one hung / ran out of memory
 	for restarts := 0; ; restarts++ {
 		if restarts > 1500 || time.Now().After(deadline) {
 			fails.add("rc_sweep_aborted", fmt.Sprintf("sweep stopped at case %d of %d after %d child restarts", start, nCases, restarts))
@@ -922,6 +941,9 @@ func TestVerifStandin_C08_TL(t *testing.T) {
 		}
 		cmd := exec.Command(os.Args[0], "-test.run=^TestVerifStandin_C08_TL$", "-test.count=1", "-test.timeout=9m")
 		cmd.Env = append(os.Environ(), "VERIF_C08TL_CHILD="+strconv.Itoa(start), "VERIF_C08TL_SKIP="+strings.Join(skips, ","))
+		if confirming {
+			cmd.Env = append(cmd.Env, "VERIF_C08TL_CONFIRM=1")
+		}
 		cmd.ExtraFiles = []*os.File{pw}
 		var stderr bytes.Buffer
 		cmd.Stdout = &stderr
@@ -964,6 +986,20 @@ func TestVerifStandin_C08_TL(t *testing.T) {
 		}
 		// the child died (or gave up) while running case `last`
 		ci, sameField := caseAt(last)
+		wasConfirming := confirming
+		confirming = false
+		if !wasConfirming {
+			oom := false
+			if !hung {
+				r, _ := c08tlFatal(stderr.String())
+				oom = strings.Contains(r, "out of memory")
+			}
+			if hung || oom {
+				confirming = true
+				start = last
+				continue
+			}
+		}
 		if !hung {
 			reason, site := c08tlFatal(stderr.String())
 			if reason == "unknown" {
